@@ -298,6 +298,8 @@ def run(prog, tier):
     obs.extend(dtype_hazard_obligations(prog, "float-arithmetic", ['inference/gp/acquisition.py', 'inference/gp/optimisation.py']))
     from .common import call_order_obligations
     obs.extend(call_order_obligations(prog, "arguments-in-order", ['inference/gp/acquisition.py', 'inference/gp/optimisation.py']))
+    from .common import identity_memo_obligations
+    obs.extend(identity_memo_obligations(prog, "result-keyed-on-values", ['inference/gp/acquisition.py', 'inference/gp/optimisation.py']))
 
     obs.extend(memo_obligations(prog, "cache-key", [prog.cls("AcquisitionFunction")] + prog.subclasses("AcquisitionFunction") + [prog.cls("GpOptimiser")]))
 
